@@ -718,7 +718,7 @@ Lemma colors_states l : Forall2 color_states l (map color_of l).
 Proof. induction l; cbn; constructor; [apply color_of_states|assumption]. Qed.
 
 (* ------------------------------------------------------------------ C10: soundness and ranges *)
-Lemma convert_ok T t c : convert T t = Ok c -> reflects T t c /\ wf_pconfig c.
+Lemma convert_ok T t c : convert T t = Ok c -> reflects T t c /\ wf_pconfig c /\ default_is_last t c.
 Proof.
   unfold convert, convert_gen. intro H.
   apply bind_ok in H. destruct H as [ms [Hms H]]. apply bind_ok in H. destruct H as [acts [Hacts H]].
@@ -735,7 +735,8 @@ Proof.
   { apply Forall2_map_eq. eapply Forall2_imp; [|exact Fm]. cbn. intros a b [[Hn _] _]. exact Hn. }
   rewrite Hnames in Eidx. apply find_last_from_spec in Eidx.
   destruct Eidx as [[Hc _]|[j [Hj [Hnth Hlater]]]]; [discriminate|]. cbn in Hj. subst j.
-  split.
+  split; [|split].
+  3:{ unfold default_is_last. cbn. intros j m Hlt Hm. apply (Hlater j (tm_name m) Hlt). apply nth_error_map_some. eauto. }
   - unfold reflects. cbn.
     repeat (split; [reflexivity|]).
     split; [eapply Forall2_imp; [|exact Fm]; cbn; tauto|].
@@ -748,8 +749,7 @@ Proof.
     split; [intros ->; reflexivity|].
     split; [intro Hne; apply Z.eqb_neq in Hne; rewrite Hne; reflexivity|].
     split; [apply nth_error_map_some in Hnth; exact Hnth|].
-    split; [|apply colors_states].
-    intros j m Hlt Hm. apply (Hlater j (tm_name m) Hlt). apply nth_error_map_some. eauto.
+    apply colors_states.
   - unfold wf_pconfig. cbn.
     assert (Hlen : (idx < length ms)%nat).
     { rewrite <- (map_length pm_name), Hnames. apply nth_error_Some. rewrite Hnth. discriminate. }
@@ -765,7 +765,10 @@ Lemma convert_sound T t c : convert T t = Ok c -> reflects T t c.
 Proof. intro H. exact (proj1 (convert_ok T t c H)). Qed.
 
 Lemma convert_ranges T t c : convert T t = Ok c -> wf_pconfig c.
-Proof. intro H. exact (proj2 (convert_ok T t c H)). Qed.
+Proof. intro H. exact (proj1 (proj2 (convert_ok T t c H))). Qed.
+
+Lemma convert_default_is_last T t c : convert T t = Ok c -> default_is_last t c.
+Proof. intro H. exact (proj2 (proj2 (convert_ok T t c H))). Qed.
 
 (* ------------------------------------------------------------------ C10: which entries are refused *)
 Lemma no_comma_count s : no_comma s -> comma_count s = 0%nat.
@@ -1196,24 +1199,6 @@ Proof.
   tauto.
 Qed.
 
-Lemma none_after_spec want : forall l i idx,
-  none_after want l i idx = true <->
-  forall j m, (idx < i + j)%nat -> nth_error l j = Some m -> tm_name m <> want.
-Proof.
-  induction l as [|m l IH]; intros i idx; cbn [none_after].
-  - split; [intros _ j m' _ H; destruct j; discriminate|reflexivity].
-  - rewrite andb_true_iff, IH. split.
-    + intros [H1 H2] j m' Hlt Hn. destruct j as [|j]; cbn in Hn.
-      * injection Hn as <-. rewrite Nat.add_0_r in Hlt. apply Nat.ltb_lt in Hlt. rewrite Hlt in H1.
-        apply negb_true_iff in H1. intro E. apply str_eqb_spec in E. congruence.
-      * apply (H2 j m'); [lia|exact Hn].
-    + intro H. split.
-      * destruct (Nat.ltb idx i) eqn:E; [|reflexivity]. apply Nat.ltb_lt in E. apply negb_true_iff.
-        destruct (str_eqb (tm_name m) want) eqn:E2; [|reflexivity]. apply str_eqb_spec in E2.
-        exfalso. apply (H 0%nat m); [lia|reflexivity|exact E2].
-      * intros j m' Hlt Hn. apply (H (S j) m'); [lia|exact Hn].
-Qed.
-
 Lemma color_states_b_spec v c : color_states_b v c = true <-> color_states v c.
 Proof. destruct c as [[r g] b]. cbn. rewrite !andb_true_iff, !Z.eqb_eq. tauto. Qed.
 
@@ -1229,7 +1214,6 @@ Proof.
       - rewrite N.eqb_eq. split; [intros ->; reflexivity|intro H; injection H as ->; reflexivity].
       - split; discriminate. }
   rewrite (forall2b_spec _ _ color_states_b_spec).
-  rewrite (none_after_spec (t_defmap t) (t_mappings t) 0 (p_mapping c)).
   assert (Hcm : opt_cmode_eqb (cmode_of_string (t_cmode t)) (p_cmode c) = true <->
                 cmode_of_string (t_cmode t) = Some (p_cmode c)).
   { unfold opt_cmode_eqb. destruct (cmode_of_string (t_cmode t)) as [x|]; [|split; discriminate].
@@ -1247,7 +1231,7 @@ Proof.
   { destruct (nth_error (t_mappings t) (p_mapping c)) as [m|].
     - rewrite str_eqb_spec. split; [intro H; exists m; auto|intros [m' [H1 H2]]; injection H1 as ->; exact H2].
     - split; [discriminate|intros [m' [H1 _]]; discriminate]. }
-  rewrite Hd. cbn [Nat.add]. tauto.
+  rewrite Hd. tauto.
 Qed.
 
 Lemma reflects_monitor T t c : convert T t = Ok c -> reflects_b T t c = true.
